@@ -556,6 +556,15 @@ func (t *Transport) newClientConn(c net.Conn, singleUse bool, internalStateHook 
 }
 
 func (cc *ClientConn) healthCheck() {
+	// The read-idle timer may fire after the connection has been closed (see run):
+	// a health check on a closed connection can only fail, and would report
+	// conn_close_lost_ping for a connection that was not lost to a PING.
+	cc.mu.Lock()
+	closed := cc.closed
+	cc.mu.Unlock()
+	if closed {
+		return
+	}
 	pingTimeout := cc.pingTimeout
 	// We don't need to periodically ping in the health check, because the readLoop of ClientConn will
 	// trigger the healthCheck again if there is no frame received.
@@ -1873,6 +1882,10 @@ func (rl *clientConnReadLoop) run() error {
 	var t *time.Timer
 	if readIdleTimeout != 0 {
 		t = time.AfterFunc(readIdleTimeout, cc.healthCheck)
+		// The loop re-arms t after every ReadFrame, including the one whose error ends
+		// the loop: without this the timer outlives the read loop and runs a health check
+		// (and keeps the ClientConn reachable) ReadIdleTimeout after the connection ended.
+		defer t.Stop()
 	}
 	for {
 		f, err := cc.fr.ReadFrame()
